@@ -175,6 +175,18 @@ def replay(beh, n, prev0, key, with_u=False):
             elif mv == "resample_cat":
                 C.q = [[a - 1 for a in h["anc"]]]
                 pc = seed(lambda p: smc.resample(p, "categorical"))(key, pc)
+            elif mv == "essr":
+                # the adaptive step of rejuvenation_smc, composed by hand from the public pieces it uses
+                W = [int(w) for w in h["W"]]
+                exact = sum(W) ** 2 / float(sum(w * w for w in W))
+                ess = float(pc.effective_sample_size())
+                if abs(ess - exact) > 1e-3 * exact:
+                    bad.append(f"effective_sample_size {ess} expected {exact}")
+                if (ess < n // 2) != bool(h["fired"]):
+                    bad.append(f"ESS trigger: ess={ess}, n//2={n // 2}, the specification says fired={h['fired']}")
+                if h["fired"]:
+                    C.q = [[a - 1 for a in h["anc"]]]
+                    pc = seed(lambda p: smc.resample(p))(key, pc)
             elif mv == "resample_sys":
                 U.q = [(2 * h["k"] + 1) / (2.0 * h["tot"])]
                 pc = seed(lambda p: smc.resample(p, "systematic"))(key, pc)
@@ -215,7 +227,7 @@ def replay(beh, n, prev0, key, with_u=False):
                 want_z = [h["zs"][i] if h["acc"][i] else cur_z[i] for i in range(n)]
                 if z != want_z:
                     bad.append(f"after rejuvenate: particle choices {z} expected {want_z} (accept pattern {list(h['acc'])})")
-            if mv in ("resample_cat", "resample_sys"):
+            if mv in ("resample_cat", "resample_sys", "essr"):
                 want_z = [cur_z[a - 1] for a in h["anc"]]
                 if z != want_z:
                     bad.append(f"after resample: particle choices {z} expected {want_z} (ancestors {list(h['anc'])})")
@@ -251,16 +263,16 @@ def run(tier, argv):
     plans += [(2, "ipep", "c", True), (2, "iprsep", "b", True), (2, "ie", "a", True)]       # a latent the custom proposal does not propose
     if tier != "quick":
         plans += [(2, "iersje", "c", False), (3, "irce", "a", False), (3, "ije", "c", False), (3, "iprsep", "b", False), (2, "ierce", "b", False),
-                  (2, "ijrcj", "c", False), (2, "ije", "b", True)]
+                  (2, "ijrcj", "c", False), (2, "ije", "b", True), (4, "ieq", "a", False)]
     os.makedirs(os.path.join(tlc.SPECS, "gen"), exist_ok=True)
     per = 40 if tier == "quick" else 400
     for n, pipe, obs, with_u in plans:
         cfgname = f"gen/C10_{pipe}_{n}_{obs}_{int(with_u)}.cfg"
         with open(os.path.join(tlc.SPECS, cfgname), "w") as f:
             f.write(f'SPECIFICATION Spec\nCONSTANTS N = {n}\n  PipeName = "{pipe}"\n  ObsName = "{obs}"\n  Prev0 = 0\n  WithU = {"TRUE" if with_u else "FALSE"}\n'
-                    "INVARIANT WeightsNonPositive\nINVARIANT Accumulate\nINVARIANT PrintHist\nPROPERTY RejuvenateKeepsWeights\nPOSTCONDITION Unbiased\n")
+                    "INVARIANT WeightsNonPositive\nINVARIANT Accumulate\nINVARIANT AccumulatePost\nINVARIANT PrintHist\nPROPERTY RejuvenateKeepsWeights\nPOSTCONDITION AllUnbiased\n")
         res = tlc.run("SMC", cfgname, workers=1, timeout=1500)
-        chk.add_tlc(res, f"SMC N={n} pipeline={pipe} obs={obs} unproposed-latent={with_u} (Unbiased postcondition holds)")
+        chk.add_tlc(res, f"SMC N={n} pipeline={pipe} obs={obs} unproposed-latent={with_u} (Unbiased and PostUnbiased postconditions hold)")
         behs = printed_values(res.stdout, '<<"BEH"') + printed_values(res.stdout, '<< "BEH"')
         tlc.cleanup(res)
         if not behs:
@@ -304,12 +316,12 @@ def record_rejuvenation_smc(chk, tier):
     from ..tlaval import printed_values as _pv
     rng = random.Random(chk.seed + 4)
     events = []
-    n_runs = 24 if tier == "quick" else 300
+    n_runs = 300 if tier == "quick" else 3000
     kernel = const(lambda t: mcmc.mh(t, sel("z")))
     cache = {}
     for r in range(n_runs):
-        N = rng.choice([2, 3, 4, 6])
-        T = rng.choice([2, 3])
+        # (N, T) pairs: the recorded integers stay inside TLC's 32-bit range; N >= 4 lets the ESS trigger fire
+        N, T = rng.choice([(2, 2), (3, 3), (4, 4), (6, 4), (8, 3), (8, 3)])
         obs = [rng.randrange(3) for _ in range(T)]
         rejuv = bool(r % 2)
         ck = (N, T, rejuv)
@@ -366,6 +378,8 @@ def _validate_smc(chk, events, tag):
     for v in _pv(res.stdout, '<<"REJECT"') + _pv(res.stdout, '<< "REJECT"'):
         rej[v[1]] = sorted(v[2])
     if chk is not None:
+        fired = _pv(res.stdout, '<<"FIRED"') + _pv(res.stdout, '<< "FIRED"')
+        chk.cov["recorded_steps_with_ess_triggered_resampling"] = sum(len(v[2]) for v in fired)
         chk.add_tlc(res, "SMCTrace/" + tag)
     tlc.cleanup(res)
     __import__("shutil").rmtree(d, ignore_errors=True)
